@@ -416,14 +416,19 @@ Proof.
   intros Hi Hr. destruct Hi; [now apply follow_ident|..]; cbn; split; (reflexivity || discriminate).
 Qed.
 
-Lemma index_expr_field f d name i t0 itxt idx t r : names_field sch name i t0 -> idx_text t0 itxt idx t -> name_follow r ->
+Lemma index_expr_field' f d name i t0 itxt idx t r :
+  ident_text name -> scheme_get sch name = Some (IdField i) -> field_ty sch i = Some t0 ->
+  idx_text t0 itxt idx t -> name_follow r ->
   okf (lex_index_expr sch st f d (name ++ itxt ++ r)) (IField i idx) r.
 Proof.
-  intros (Hn & _ & Hg & Hty) Hi Hr. destruct f as [|f]; [now left|]. right.
+  intros Hn Hg Hty Hi Hr. destruct f as [|f]; [now left|]. right.
   cbn [lex_index_expr]. rewrite (ident_name_roundtrip name _ Hn (idx_then_stop _ _ _ _ r Hi Hr)). rewrite Hg, Hty.
   rewrite (lex_indexes_text t0 itxt idx t Hi r [] _ (follow_no_bracket r Hr)); [reflexivity|].
   rewrite app_length. lia.
 Qed.
+Lemma index_expr_field f d name i t0 itxt idx t r : names_field sch name i t0 -> idx_text t0 itxt idx t -> name_follow r ->
+  okf (lex_index_expr sch st f d (name ++ itxt ++ r)) (IField i idx) r.
+Proof. intros (Hn & _ & Hg & Hty). now apply index_expr_field'. Qed.
 
 Lemma field_ty_iexpr i t0 itxt idx t : field_ty sch i = Some t0 -> idx_text t0 itxt idx t -> ty_iexpr sch (IField i idx) = Some t.
 Proof. intros H Hi. cbn [ty_iexpr]. rewrite H. cbn. exact (idx_ty _ _ _ _ Hi). Qed.
@@ -1047,3 +1052,18 @@ Example gex_parses :
   parse_filter gex_sch default_settings gex_text =
   LOk (ECombining LOr (LCons (ECombining LAnd (LCons gex_a1 (LCons gex_a2 LNil))) (LCons gex_a3 (LCons gex_a4 LNil)))) [].
 Proof. exact (filter_grammar_parses _ _ _ _ gex_in_grammar). Qed.
+
+(* ---- value expressions ---- *)
+Theorem value_grammar_parses sch st text e : GValue sch text e -> parse_value sch st text = LOk e [].
+Proof.
+  intros (ws1 & name & itxt & ws2 & i & t0 & idx & t & -> & H1 & H2 & Hn & Hg & Hty & Hi & He & ->).
+  destruct (lhs_ends name itxt t0 idx t Hn Hi) as [Hs Hend].
+  pose proof (parse_value_terminates sch st (name ++ itxt)) as Hnf.
+  assert (E : parse_value sch st (ws1 ++ (name ++ itxt) ++ ws2) = parse_value sch st (name ++ itxt)).
+  { unfold parse_value. now rewrite trim_layout. }
+  rewrite E. unfold parse_value in *. rewrite (trim_id _ Hs Hend) in *.
+  pose proof (index_expr_field' sch st (8 * List.length (name ++ itxt) + 16) 0 name i t0 itxt idx t [] Hn Hg Hty Hi I) as Hp.
+  rewrite app_nil_r in Hp.
+  destruct Hp as [Ep|Ep]; rewrite Ep in *; cbn [lbind complete] in *; [congruence|].
+  cbn [iexpr_idx]. rewrite He. reflexivity.
+Qed.
